@@ -470,6 +470,58 @@ func tlvStructFamily(a *Args) error {
 					}
 				}()
 				lines = append(lines, op)
+				// lists whose elements are held by pointers (the encoder follows them): the same bytes as the lists of
+				// values, and they come back
+				type pel struct {
+					V uint8  `tlv8:"7"`
+					N string `tlv8:"10"`
+				}
+				type ptrLists struct {
+					A  uint8  `tlv8:"1"`
+					L  []*pel `tlv8:"2"`
+					In []*pel `tlv8:"-"`
+				}
+				type valLists struct {
+					A  uint8 `tlv8:"1"`
+					L  []pel `tlv8:"2"`
+					In []pel `tlv8:"-"`
+				}
+				op2 := J{"ev": "marshal-ptrlist", "case": b.ID, "i": 0, "shape": s.Shape, "panic": false, "roundtrip": false, "samebytes": false}
+				func() {
+					defer func() {
+						if r := recover(); r != nil {
+							op2["panic"] = true
+						}
+					}()
+					in := ptrLists{A: uint8(1 + rng.Intn(200))}
+					ref := valLists{A: in.A}
+					for k, n := 0, rng.Intn(3); k < n; k++ {
+						e := pel{V: uint8(1 + rng.Intn(200)), N: fmt.Sprintf("l%d", rng.Intn(1000))}
+						in.L, ref.L = append(in.L, &pel{V: e.V, N: e.N}), append(ref.L, e)
+					}
+					for k, n := 0, 1+rng.Intn(3); k < n; k++ {
+						e := pel{V: uint8(1 + rng.Intn(200)), N: fmt.Sprintf("i%d", rng.Intn(1000))}
+						in.In, ref.In = append(in.In, &pel{V: e.V, N: e.N}), append(ref.In, e)
+					}
+					enc, err := tlv8.Marshal(in)
+					encRef, err2 := tlv8.Marshal(ref)
+					if err != nil || err2 != nil {
+						return
+					}
+					op2["samebytes"] = bytes.Equal(enc, encRef)
+					var out ptrLists
+					if tlv8.Unmarshal(enc, &out) == nil {
+						ok := out.A == in.A && len(out.L) == len(in.L) && len(out.In) == len(in.In)
+						for k := 0; ok && k < len(in.L); k++ {
+							ok = out.L[k] != nil && *out.L[k] == *in.L[k]
+						}
+						for k := 0; ok && k < len(in.In); k++ {
+							ok = out.In[k] != nil && *out.In[k] == *in.In[k]
+						}
+						op2["roundtrip"] = ok
+					}
+				}()
+				lines = append(lines, op2)
 			}
 			// arbitrary / damaged bytes into Unmarshal
 			for d := 0; d < 3; d++ {
